@@ -1259,3 +1259,319 @@ Proof.
   unfold check_delta. rewrite Hn. apply andb_true_intro. split; [apply Z.leb_le; exact L|].
   destruct (upper_region (c05_m_min a)); [apply Z.leb_le; exact U|reflexivity].
 Qed.
+
+(* ====================================================================================================== *)
+(* statements in the form the property files quote                                                        *)
+(* ====================================================================================================== *)
+(* c05_error_bound: no overflow / underflow, and the computed x (before the ceiling) is within 8 u (|x| + n) of the exact x;
+   above the threshold (x >= 0) this is 8 u (x + n) *)
+Theorem delta_error_bound r C t n :
+  (1 <= r < 2 ^ 63)%Z -> (1 <= C < 2 ^ 63)%Z -> (1 <= t <= 2 ^ 31)%Z -> (1 <= n <= 2 ^ 31)%Z ->
+  is_finite (pct r C) = true /\ is_finite (xt n t (pct r C)) = true
+  /\ Rabs (B2R (xt n t (pct r C)) - xr r C t n) <= 8 * u * (Rabs (xr r C t n) + IZR n)
+  /\ (0 <= xr r C t n -> Rabs (B2R (xt n t (pct r C)) - xr r C t n) <= 8 * u * (xr r C t n + IZR n)).
+Proof.
+  intros Hr HC Ht Hn. destruct (pct_float r C Hr HC) as [_ [_ [_ [Fp _]]]].
+  destruct (xt_error r C t n Hr HC Ht Hn) as [Fx [E _]].
+  repeat split; try assumption. intro Hx. rewrite (Rabs_pos_eq (xr r C t n)) in E by exact Hx. exact E.
+Qed.
+
+(* the exactly-representable sub-case (r, C < 2^53: the conversions are exact) costs one rounding less *)
+Lemma theta_bound_small e3 e4 : Rabs e3 <= u -> Rabs e4 <= u -> Rabs ((1 + e3) * (1 + e4) - 1) <= 21/10 * u.
+Proof.
+  intros H3 H4. pose proof u_pos.
+  assert (A : Rabs ((1 + e3) * (1 + e4) - 1) <= (1 + 1 + / 1000) * u) by (apply compose_err; lra). lra.
+Qed.
+
+(* calcPercentUsage with non-zero capacities is the pair of quotients *)
+Lemma calc_percent_pct cpuReq memReq cpuCap memCap n : cpuCap <> 0%Z -> memCap <> 0%Z ->
+  calc_percent cpuReq memReq cpuCap memCap n = PctOk (pct cpuReq cpuCap) (pct memReq memCap).
+Proof. intros; unfold pct; now apply percent_quotient. Qed.
+
+(* ---------- the exact-rational reading of a float view is its real value ---------- *)
+Lemma view_value (x : f64) a b : view_num_den (f_view x) = Some (a, b) -> (0 < b)%Z /\ B2R x = IZR a / IZR b.
+Proof.
+  destruct x as [s|s| |s m e He]; simpl; intro H; try discriminate.
+  - injection H as <- <-. split; [lia|]. simpl. lra.
+  - destruct (Z.leb_spec 0 e) as [Le|Le]; injection H as <- <-.
+    + split; [lia|]. unfold F2R. simpl Fnum. simpl Fexp. rewrite mult_IZR, <- (IZR_Zpower radix2) by exact Le.
+      change (radix_val radix2) with 2%Z. destruct s; simpl cond_Zopp; field.
+    + assert (P : (0 < 2 ^ (- e))%Z) by (apply Z.pow_pos_nonneg; lia). split; [exact P|].
+      unfold F2R. simpl Fnum. simpl Fexp.
+      replace (IZR (2 ^ (- e))) with (bpow radix2 (- e)) by (rewrite <- IZR_Zpower by lia; reflexivity).
+      rewrite bpow_opp. assert (bpow radix2 e <> 0) by (apply Rgt_not_eq, bpow_gt_0).
+      destruct s; simpl cond_Zopp; field; assumption.
+Qed.
+
+Lemma finite_view (x : f64) : is_finite x = true -> exists a b, view_num_den (f_view x) = Some (a, b).
+Proof.
+  destruct x as [s|s| |s m e He]; simpl; intro H; try discriminate.
+  - eexists _, _; reflexivity.
+  - destruct (0 <=? e)%Z; eexists _, _; reflexivity.
+Qed.
+
+(* the model's percentage passes the observed-value checker (so a failure of the checker with R = [] is impossible) *)
+Lemma pct_close_model r C : (1 <= r < 2 ^ 63)%Z -> (1 <= C < 2 ^ 63)%Z -> pct_close (f_view (pct r C)) r C = true.
+Proof.
+  intros Hr HC. destruct (pct_error r C Hr HC) as [Fp [_ E]].
+  destruct (finite_view _ Fp) as [a [b V]]. destruct (view_value _ _ _ V) as [Hb Ev].
+  unfold pct_close. rewrite V. apply Z.leb_le. unfold two53.
+  rewrite Ev in E.
+  assert (Rb : 0 < IZR b) by (apply IZR_lt; exact Hb).
+  assert (RC : 0 < IZR C) by (apply IZR_lt; lia). assert (Rr : 0 < IZR r) by (apply IZR_lt; lia).
+  (* multiply |a/b - 100 r/C| <= 5 u 100 r / C by b C 2^53 *)
+  apply le_IZR. rewrite !mult_IZR, abs_IZR, minus_IZR, !mult_IZR.
+  replace (IZR a / IZR b - 100 * IZR r / IZR C) with ((IZR a * IZR C - 100 * IZR r * IZR b) / (IZR b * IZR C)) in E by (field; lra).
+  unfold Rdiv in E at 1. rewrite Rabs_mult, (Rabs_pos_eq (/ (IZR b * IZR C))) in E
+    by (apply Rlt_le, Rinv_0_lt_compat, Rmult_lt_0_compat; assumption).
+  assert (E' : Rabs (IZR a * IZR C - 100 * IZR r * IZR b) <= 5 * u * (100 * IZR r / IZR C) * (IZR b * IZR C)).
+  { apply Rmult_le_reg_r with (/ (IZR b * IZR C)); [apply Rinv_0_lt_compat, Rmult_lt_0_compat; assumption|].
+    eapply Rle_trans; [exact E|]. right. field. split; lra. }
+  replace (5 * u * (100 * IZR r / IZR C) * (IZR b * IZR C)) with (u * (500 * IZR r * IZR b)) in E' by (field; lra).
+  apply Rle_trans with (u * (500 * IZR r * IZR b) * 9007199254740992).
+  - apply Rmult_le_compat_r; [lra|exact E'].
+  - right. unfold u. field.
+Qed.
+
+(* ====================================================================================================== *)
+(* scale-up from zero with a cached node size: ceil (r / c / t * 100)                                      *)
+(* ====================================================================================================== *)
+Definition x0 (r c t : Z) : f64 := fmul (fdiv (fdiv (of_Z r) (of_Z c)) (of_Z t)) f100.
+Definition dz0 (r c t : Z) : Z := Zceil (B2R (x0 r c t)).
+
+Lemma theta5_bound e1 e2 e3 e4 e5 :
+  Rabs e1 <= u -> Rabs e2 <= u -> Rabs e3 <= u -> Rabs e4 <= u -> Rabs e5 <= u ->
+  Rabs ((1+e1)*(1+e3)*(1+e4)*(1+e5)/(1+e2) - 1) <= 51/10 * u.
+Proof.
+  intros H1 H2 H3 H4 H5. pose proof u_pos as Hu.
+  set (A := (1 + e1) * (1 + e3) - 1).
+  assert (HA : Rabs A <= (1 + 1 + / 1000) * u) by (apply compose_err; lra).
+  set (B := (1 + A) * (1 + e4) - 1).
+  assert (HB : Rabs B <= ((1 + 1 + / 1000) + 1 + / 1000) * u) by (apply compose_err; lra).
+  set (C := (1 + B) * (1 + e5) - 1).
+  assert (HC : Rabs C <= (((1 + 1 + / 1000) + 1 + / 1000) + 1 + / 1000) * u) by (apply compose_err; lra).
+  pose proof (inv_err e2 H2) as HI.
+  assert (HD : Rabs ((1 + C) * (1 + (/ (1 + e2) - 1)) - 1) <= ((((1 + 1 + / 1000) + 1 + / 1000) + 1 + / 1000) + (1 + / 1000) + / 1000) * u)
+    by (apply compose_err; lra).
+  replace ((1+e1)*(1+e3)*(1+e4)*(1+e5)/(1+e2) - 1) with ((1 + C) * (1 + (/ (1 + e2) - 1)) - 1) by (unfold C, B, A, Rdiv; ring).
+  eapply Rle_trans; [exact HD|]. lra.
+Qed.
+
+Lemma x0_float r c t : (1 <= r < 2 ^ 63)%Z -> (1 <= c < 2 ^ 63)%Z -> (1 <= t <= 2 ^ 31)%Z ->
+  exists th, Rabs th <= 51/10 * u /\ B2R (x0 r c t) = 100 * IZR r / (IZR t * IZR c) * (1 + th) /\ is_finite (x0 r c t) = true.
+Proof.
+  intros Hr Hc Ht.
+  destruct (of_Z_rel r ltac:(lia)) as [e1 [He1 [Ea Fa]]].
+  destruct (of_Z_rel c ltac:(lia)) as [e2 [He2 [Eb Fb]]].
+  destruct (of_Z_exact t ltac:(lia)) as [Et Ft].
+  pose proof (within_IZR r 63 Hr ltac:(lia)) as Wr. pose proof (within_IZR c 63 Hc ltac:(lia)) as Wc.
+  assert (Wt : within 0 32 (IZR t)) by (apply within_IZR; lia).
+  assert (Wa : within (-1) 64 (B2R (of_Z r))) by (rewrite Ea; eapply within_mul'; [exact Wr|apply within_eps, He1|lia|lia]).
+  assert (Wb : within (-1) 64 (B2R (of_Z c))) by (rewrite Eb; eapply within_mul'; [exact Wc|apply within_eps, He2|lia|lia]).
+  assert (Wq0 : within (-65) 65 (B2R (of_Z r) / B2R (of_Z c))) by (eapply within_div'; [exact Wa|exact Wb|lia|lia]).
+  assert (Hb0 : B2R (of_Z c) <> 0) by (apply Rgt_not_eq, (within_pos _ _ _ Wb)).
+  destruct (within_abs _ _ _ Wq0 ltac:(lia) ltac:(lia)) as [Q1 Q2].
+  destruct (fdiv_rel (of_Z r) (of_Z c) Fa Fb Hb0 (or_intror Q1) Q2) as [e3 [He3 [Eq Fq]]].
+  assert (Wq : within (-66) 66 (B2R (fdiv (of_Z r) (of_Z c)))) by (rewrite Eq; eapply within_mul'; [exact Wq0|apply within_eps, He3|lia|lia]).
+  assert (Ht0 : B2R (of_Z t) <> 0) by (rewrite Et; apply Rgt_not_eq, (within_pos _ _ _ Wt)).
+  assert (Ww0 : within (-98) 66 (B2R (fdiv (of_Z r) (of_Z c)) / B2R (of_Z t))) by (rewrite Et; eapply within_div'; [exact Wq|exact Wt|lia|lia]).
+  destruct (within_abs _ _ _ Ww0 ltac:(lia) ltac:(lia)) as [W1 W2].
+  destruct (fdiv_rel _ (of_Z t) Fq Ft Ht0 (or_intror W1) W2) as [e4 [He4 [Ew Fw]]].
+  assert (Ww : within (-99) 67 (B2R (fdiv (fdiv (of_Z r) (of_Z c)) (of_Z t)))) by (rewrite Ew; eapply within_mul'; [exact Ww0|apply within_eps, He4|lia|lia]).
+  destruct f100_val as [E100 F100].
+  assert (W100 : within 6 7 (B2R f100)) by (rewrite E100; unfold within; simpl; lra).
+  assert (Wm0 : within (-93) 74 (B2R (fdiv (fdiv (of_Z r) (of_Z c)) (of_Z t)) * B2R f100)) by (eapply within_mul'; [exact Ww|exact W100|lia|lia]).
+  destruct (within_abs _ _ _ Wm0 ltac:(lia) ltac:(lia)) as [M1 M2].
+  destruct (fmul_rel _ _ Fw F100 (or_intror M1) M2) as [e5 [He5 [Ex Fx]]].
+  fold (x0 r c t) in Ex, Fx.
+  exists ((1+e1)*(1+e3)*(1+e4)*(1+e5)/(1+e2) - 1). split; [now apply theta5_bound|]. split; [|exact Fx].
+  rewrite Ex, Ew, Eq, Ea, Eb, Et, E100.
+  assert (IZR c <> 0) by (apply Rgt_not_eq, (within_pos _ _ _ Wc)).
+  assert (IZR t <> 0) by (apply Rgt_not_eq, (within_pos _ _ _ Wt)).
+  assert (1 + e2 <> 0) by (apply Rgt_not_eq, (within_pos _ _ _ (within_eps _ He2))).
+  field. repeat split; assumption.
+Qed.
+
+Lemma x0_zero c t : (1 <= c < 2 ^ 63)%Z -> (1 <= t <= 2 ^ 31)%Z -> B2R (x0 0 c t) = 0 /\ is_finite (x0 0 c t) = true.
+Proof.
+  intros Hc Ht.
+  destruct (of_Z_exact 0 ltac:(lia)) as [Ea Fa].
+  destruct (of_Z_rel c ltac:(lia)) as [e2 [He2 [Eb Fb]]].
+  destruct (of_Z_exact t ltac:(lia)) as [Et Ft].
+  assert (Wb : within (-1) 64 (B2R (of_Z c))) by (rewrite Eb; eapply within_mul'; [exact (within_IZR c 63 Hc ltac:(lia))|apply within_eps, He2|lia|lia]).
+  assert (Hb0 : B2R (of_Z c) <> 0) by (apply Rgt_not_eq, (within_pos _ _ _ Wb)).
+  assert (Ht0 : B2R (of_Z t) <> 0) by (rewrite Et; apply Rgt_not_eq, IZR_lt; lia).
+  destruct (fdiv_rel (of_Z 0) (of_Z c) Fa Fb Hb0) as [e3 [He3 [Eq Fq]]].
+  { left; exact Ea. } { rewrite Ea. unfold Rdiv. rewrite Rmult_0_l, Rabs_R0. apply bpow_ge_0. }
+  assert (Zq : B2R (fdiv (of_Z 0) (of_Z c)) = 0) by (rewrite Eq, Ea; unfold Rdiv; ring).
+  destruct (fdiv_rel _ (of_Z t) Fq Ft Ht0) as [e4 [He4 [Ew Fw]]].
+  { left; exact Zq. } { rewrite Zq. unfold Rdiv. rewrite Rmult_0_l, Rabs_R0. apply bpow_ge_0. }
+  assert (Zw : B2R (fdiv (fdiv (of_Z 0) (of_Z c)) (of_Z t)) = 0) by (rewrite Ew, Zq; unfold Rdiv; ring).
+  destruct f100_val as [E100 F100].
+  destruct (fmul_rel _ _ Fw F100) as [e5 [He5 [Ex Fx]]].
+  { left. rewrite Zw. ring. } { rewrite Zw, Rmult_0_l, Rabs_R0. apply bpow_ge_0. }
+  split; [|exact Fx]. unfold x0. rewrite Ex, Zw. ring.
+Qed.
+
+Lemma Zceil_needed r c t : (0 < c)%Z -> (0 < t)%Z -> Zceil (100 * IZR r / (IZR t * IZR c)) = nodes_needed_exact r c t.
+Proof.
+  intros Hc Ht. unfold nodes_needed_exact. rewrite <- Zceil_div by nia. f_equal. rewrite !mult_IZR. reflexivity.
+Qed.
+
+Record res0_facts (r c t : Z) : Prop := {
+  r0_finite : is_finite (x0 r c t) = true;
+  r0_nonneg : (0 <= dz0 r c t)%Z;
+  r0_upper : (8 * nodes_needed_exact r c t < 2 ^ 53)%Z -> (dz0 r c t <= nodes_needed_exact r c t + 1)%Z;
+  r0_suff : res_region r c = true -> (nodes_needed_exact r c t <= dz0 r c t)%Z
+}.
+
+Lemma res0_facts_hold r c t : (0 <= r < 2 ^ 63)%Z -> (1 <= c < 2 ^ 63)%Z -> (1 <= t <= 2 ^ 31)%Z -> res0_facts r c t.
+Proof.
+  intros Hr Hc Ht. destruct (Z.eq_dec r 0) as [->|Hnz].
+  - destruct (x0_zero c t Hc Ht) as [Zx Fx].
+    assert (N0 : nodes_needed_exact 0 c t = 0%Z).
+    { apply Z.le_antisymm; [apply nodes_needed_least; try lia; unfold holds_at; nia|].
+      destruct (Z_lt_le_dec (nodes_needed_exact 0 c t) 0) as [L|L]; [exfalso|exact L].
+      assert (G : (nodes_needed_exact 0 c t <= -1)%Z) by lia.
+      apply (nodes_needed_least 0 c t (-1)) in G; try lia. unfold holds_at in G. nia. }
+    assert (D0 : dz0 0 c t = 0%Z) by (unfold dz0; rewrite Zx; apply (Zceil_IZR 0)).
+    constructor; [exact Fx|lia|intros _; lia|intros _; lia].
+  - assert (Hr1 : (1 <= r < 2 ^ 63)%Z) by lia.
+    destruct (x0_float r c t Hr1 Hc Ht) as [th [Hth [Ex Fx]]].
+    pose proof (Zceil_needed r c t ltac:(lia) ltac:(lia)) as EN.
+    set (y := 100 * IZR r / (IZR t * IZR c)) in *.
+    assert (Rr : 0 < IZR r) by (apply IZR_lt; lia). assert (Rc : 0 < IZR c) by (apply IZR_lt; lia). assert (Rt : 0 < IZR t) by (apply IZR_lt; lia).
+    assert (Hy : 0 < y) by (unfold y; apply Rdiv_lt_0_compat; [lra|apply Rmult_lt_0_compat; assumption]).
+    pose proof u_pos as Hu. pose proof u_tiny as Hut. pose proof u_two53 as Hu53.
+    apply Rabs_le_inv in Hth.
+    pose proof (Zceil_ub y) as Huby. rewrite EN in Huby.
+    constructor.
+    + exact Fx.
+    + unfold dz0. rewrite Ex. pose proof (Zceil_ub (y * (1 + th))) as H.
+      assert (0 < y * (1 + th)) by (apply Rmult_lt_0_compat; lra).
+      assert (0 < Zceil (y * (1 + th)))%Z by (apply lt_IZR; lra). lia.
+    + intro Hm. unfold dz0. rewrite Ex. apply Zceil_glb. rewrite plus_IZR. simpl (IZR 1).
+      assert (H8 : 8 * IZR (nodes_needed_exact r c t) < IZR (2 ^ 53)) by (rewrite <- (mult_IZR 8); apply IZR_lt; exact Hm).
+      assert (Hs : y * (51 / 10 * u) < 1).
+      { apply Rle_lt_trans with (u * (8 * IZR (nodes_needed_exact r c t))); [nra|].
+        rewrite <- Hu53. apply Rmult_lt_compat_l; lra. }
+      nra.
+    + intro Hreg. destruct (res_region_split r c ltac:(lia) ltac:(lia) Hreg) as [G [r' [c' [HG [Er [Ec H800]]]]]].
+      assert (Hc' : (0 < c')%Z) by nia. assert (Hr' : (0 < r')%Z) by nia.
+      set (A := (100 * r')%Z). set (B := (t * c')%Z). assert (HB : (0 < B)%Z) by (unfold B; nia).
+      assert (EN' : nodes_needed_exact r c t = ceil_div A B).
+      { unfold nodes_needed_exact. rewrite Er, Ec. unfold A, B.
+        replace (100 * (G * r'))%Z with (G * (100 * r'))%Z by ring. replace (t * (G * c'))%Z with (G * (t * c'))%Z by ring.
+        apply ceil_div_scale; assumption. }
+      assert (Br : 0 < IZR B) by (apply IZR_lt; exact HB). assert (Gr : 0 < IZR G) by (apply IZR_lt; exact HG).
+      assert (yB : y * IZR B = IZR A).
+      { unfold y, A, B. rewrite Er, Ec, !mult_IZR.
+        assert (IZR c' <> 0) by (apply IZR_neq; lia). field. repeat split; lra. }
+      set (k := (ceil_div A B - 1)%Z).
+      assert (Hk : IZR k * IZR B + 1 <= IZR A).
+      { pose proof (ceil_div_lower A B HB) as L. fold k in L. rewrite <- mult_IZR, <- (plus_IZR _ 1). apply IZR_le. lia. }
+      assert (Hsm : 51 / 10 * u * IZR A < 1).
+      { unfold A. rewrite mult_IZR. assert (Rr' : 0 < IZR r') by (apply IZR_lt; exact Hr').
+        assert (0 <= u * IZR r') by (apply Rmult_le_pos; lra).
+        apply Rle_lt_trans with (u * (800 * IZR r')); [nra|].
+        rewrite <- Hu53. apply Rmult_lt_compat_l; [lra|]. rewrite <- (mult_IZR 800). apply IZR_lt. exact H800. }
+      assert (HkX : IZR k < y * (1 + th)).
+      { apply Rmult_lt_reg_r with (IZR B); [exact Br|].
+        replace (y * (1 + th) * IZR B) with (y * IZR B * (1 + th)) by ring. rewrite yB.
+        assert (0 < IZR A) by (rewrite <- yB; apply Rmult_lt_0_compat; assumption). nra. }
+      unfold dz0. rewrite Ex, EN'. pose proof (Zceil_ub (y * (1 + th))) as HubX.
+      assert (k < Zceil (y * (1 + th)))%Z by (apply lt_IZR; lra). unfold k in *. lia.
+Qed.
+
+Lemma calc_delta_from_zero n cp mp cpuReq memReq t ccpu cmem :
+  feq cp f_max = true \/ feq mp f_max = true -> q_num ccpu <> 0%Z -> q_num cmem <> 0%Z ->
+  is_finite (x0 cpuReq (q_milli ccpu) t) = true -> is_finite (x0 memReq (q_milli cmem) t) = true ->
+  let dc := dz0 cpuReq (q_milli ccpu) t in let dm := dz0 memReq (q_milli cmem) t in
+  (-9223372036854775808 <= Z.max dc dm <= 9223372036854775807)%Z ->
+  calc_delta n cp mp cpuReq memReq t ccpu cmem
+  = if (Z.max dc dm <? 0)%Z then DeltaErr (Z.max dc dm) else DeltaOk (Z.max dc dm).
+Proof.
+  intros Hf Hc Hm Fc Fm dc dm Hd. unfold calc_delta.
+  assert (E : feq cp f_max || feq mp f_max = true) by (destruct Hf as [H|H]; rewrite H; [reflexivity|apply orb_true_r]).
+  rewrite E.
+  assert (Z : (q_num ccpu =? 0)%Z || (q_num cmem =? 0)%Z = false).
+  { apply orb_false_intro; apply Z.eqb_neq; assumption. }
+  rewrite Z. fold (x0 cpuReq (q_milli ccpu) t). fold (x0 memReq (q_milli cmem) t).
+  destruct (fceil_correct (x0 cpuReq (q_milli ccpu) t)) as [Ec Gc]. destruct (fceil_correct (x0 memReq (q_milli cmem) t)) as [Em Gm].
+  rewrite Fc in Gc. rewrite Fm in Gm.
+  destruct (fmax_correct _ _ Gc Gm) as [EM FM]. rewrite Ec, Em, Rmax_IZR in EM.
+  change (Zceil (B2R (x0 cpuReq (q_milli ccpu) t))) with dc in EM. change (Zceil (B2R (x0 memReq (q_milli cmem) t))) with dm in EM.
+  rewrite (to_int_correct _ (Z.max dc dm) FM EM Hd). reflexivity.
+Qed.
+
+Lemma q_milli_cached_cpu c : (0 < c)%Z -> q_milli {| q_num := c; q_den := 1000 |} = c.
+Proof.
+  intro H. unfold q_milli, div_away. simpl q_num. simpl q_den.
+  destruct (Z.leb_spec 0 (1000 * c)); [|lia].
+  replace (1000 * c + 1000 - 1)%Z with (c * 1000 + 999)%Z by ring.
+  rewrite Z.div_add_l by lia. change (999 / 1000)%Z with 0%Z. lia.
+Qed.
+
+Lemma q_milli_cached_mem c : (0 < c)%Z -> q_milli {| q_num := c; q_den := 1 |} = (1000 * c)%Z.
+Proof.
+  intro H. unfold q_milli, div_away. simpl q_num. simpl q_den.
+  destruct (Z.leb_spec 0 (1000 * c)); [|lia].
+  replace (1000 * c + 1 - 1)%Z with (1000 * c)%Z by ring. apply Z.div_1_r.
+Qed.
+
+Definition c05_zero_ranges (a : arith_in) : bool :=
+  in_range63 0 (a_cpu_req a) && in_range63 0 (1000 * a_mem_req a)
+  && in_range63 1 (a_ccpu a) && in_range63 1 (1000 * a_cmem a)
+  && (1 <=? a_thr a)%Z && (a_thr a <=? two31)%Z.
+
+Definition zero_d (a : arith_in) : Z :=
+  Z.max (dz0 (a_cpu_req a) (a_ccpu a) (a_thr a)) (dz0 (1000 * a_mem_req a) (1000 * a_cmem a) (a_thr a)).
+
+Lemma m_zero_milli a : (0 < a_cmem a)%Z -> (0 < a_thr a)%Z ->
+  c05_m_zero a = Z.max (nodes_needed_exact (a_cpu_req a) (a_ccpu a) (a_thr a))
+                       (nodes_needed_exact (1000 * a_mem_req a) (1000 * a_cmem a) (a_thr a)).
+Proof. intros Hc Ht. unfold c05_m_zero, m_min. rewrite needed_scale by lia. reflexivity. Qed.
+
+(* from zero with a cached node size, on the model *)
+Theorem model_from_zero a :
+  c05_from_zero a = true -> c05_zero_ranges a = true -> (8 * c05_m_zero a < 9007199254740992)%Z ->
+  arith_percent a = PctOk f_max f_max
+  /\ arith_delta a f_max f_max = DeltaOk (zero_d a)
+  /\ (0 <= zero_d a <= c05_m_zero a + 1)%Z
+  /\ (res_region (a_cpu_req a) (a_ccpu a) = true -> res_region (1000 * a_mem_req a) (1000 * a_cmem a) = true ->
+      (c05_m_zero a <= zero_d a)%Z).
+Proof.
+  intros Hz Hr Hu.
+  unfold c05_zero_ranges, in_range63, two63, two31 in Hr.
+  assert (R : (0 <= a_cpu_req a < 2 ^ 63)%Z /\ (0 <= 1000 * a_mem_req a < 2 ^ 63)%Z /\ (1 <= a_ccpu a < 2 ^ 63)%Z
+              /\ (1 <= 1000 * a_cmem a < 2 ^ 63)%Z /\ (1 <= a_thr a <= 2 ^ 31)%Z).
+  { change (2 ^ 63)%Z with 9223372036854775808%Z. change (2 ^ 31)%Z with 2147483648%Z. repeat split; lia. }
+  clear Hr. destruct R as [Rc [Rm [Cc [Cm Ht]]]].
+  assert (Hcm : (0 < a_cmem a)%Z) by lia.
+  rewrite (m_zero_milli a Hcm ltac:(lia)) in *.
+  destruct (res0_facts_hold _ _ _ Rc Cc Ht) as [Fc Nc Uc Sc]. destruct (res0_facts_hold _ _ _ Rm Cm Ht) as [Fm Nm Um Sm].
+  assert (P53 : (2 ^ 53 = 9007199254740992)%Z) by reflexivity. rewrite P53 in Uc, Um. clear P53.
+  fold (zero_d a).
+  assert (Hn0 : a_n a = 0%Z /\ (a_cpu_cap a = 0 \/ 1000 * a_mem_cap a = 0)%Z
+                /\ ~ (a_cpu_req a = 0 /\ 1000 * a_mem_req a = 0 /\ a_cpu_cap a = 0 /\ 1000 * a_mem_cap a = 0)%Z).
+  { unfold c05_from_zero in Hz. repeat split; lia. }
+  destruct Hn0 as [En [Hcap Hnz]].
+  split.
+  - unfold arith_percent. rewrite En. apply percent_zero_capacity_no_nodes; assumption.
+  - assert (B : (0 <= zero_d a <= Z.max (nodes_needed_exact (a_cpu_req a) (a_ccpu a) (a_thr a))
+                                         (nodes_needed_exact (1000 * a_mem_req a) (1000 * a_cmem a) (a_thr a)) + 1)%Z).
+    { unfold zero_d. specialize (Uc ltac:(lia)). specialize (Um ltac:(lia)). lia. }
+    split; [|split; [exact B|]].
+    + unfold arith_delta.
+      rewrite (calc_delta_from_zero (a_n a) f_max f_max (a_cpu_req a) (1000 * a_mem_req a) (a_thr a)
+                 {| q_num := a_ccpu a; q_den := 1000 |} {| q_num := a_cmem a; q_den := 1 |}).
+      * rewrite q_milli_cached_cpu, q_milli_cached_mem by lia. fold (zero_d a).
+        destruct (Z.ltb_spec (zero_d a) 0); [lia|reflexivity].
+      * left. exact feq_max_max.
+      * simpl; lia.
+      * simpl; lia.
+      * rewrite q_milli_cached_cpu by lia. exact Fc.
+      * rewrite q_milli_cached_mem by lia. exact Fm.
+      * rewrite q_milli_cached_cpu, q_milli_cached_mem by lia. fold (zero_d a). lia.
+    + intros R1 R2. specialize (Sc R1). specialize (Sm R2). unfold zero_d. lia.
+Qed.
